@@ -55,49 +55,82 @@ func chainPrestates() []*prestate {
 
 func isFactory(p *prestate) bool { return strings.HasSuffix(p.Kind, "+factory") }
 
-// chainLettersFor: the factory chains additionally re-create the contract (mk2B).
-func chainLettersFor(p *prestate) []string {
-	if isFactory(p) {
-		if r.Thorough() {
-			// 3-block chains: the revert template is dropped here to keep the thorough tier inside its budget
-			return []string{"", "setB", "clrA", "readB", "killA", "mk2B"}
-		}
-		return append(append([]string{}, chainLetterNames...), "mk2B")
-	}
-	return chainLetterNames
+// A chain FAMILY: every sequence of n blocks over a set of block letters; a letter is the template sequence of one block
+// ("" = the empty block, "killA,payA" = two transactions in ONE block).
+type chainFamily struct {
+	n       int
+	letters []string
 }
 
-func enumerateChains(pres []*prestate, nBlocks int) []chainJob {
-	var jobs []chainJob
-	for _, p := range pres {
-		var letters [][]int
-		for _, nm := range chainLettersFor(p) {
-			if nm == "" {
-				letters = append(letters, nil)
+// the factory chains' second family: blocks that DESTRUCT the contract and RE-FUND (payA) or RE-CREATE (mk2B, CREATE2 factory)
+// the same address within ONE block - the account is then both in the snapshot diff layer's destruct set and in its account
+// data - followed by blocks that pay the address directly (payA) and through the forwarder contract (fwdA: CALL with value,
+// CallNewAccountGas when the callee does not exist; then BALANCE and EXTCODESIZE of it)
+var recreateLetters = []string{"", "setB", "clrA", "killA", "mk2B", "payA", "fwdA", "killA,payA", "killA,mk2B"}
+
+func chainFamiliesFor(p *prestate) []chainFamily {
+	switch {
+	case !isFactory(p) && r.Thorough():
+		return []chainFamily{{3, chainLetterNames}}
+	case !isFactory(p):
+		return []chainFamily{{2, chainLetterNames}}
+	case r.Thorough():
+		// 3-block chains without the revert template (budget), 2-block chains over the re-creation letters
+		return []chainFamily{{3, []string{"", "setB", "clrA", "readB", "killA", "mk2B"}}, {2, recreateLetters}}
+	}
+	return []chainFamily{{2, recreateLetters}}
+}
+
+func lettersToSeqs(names []string) [][]int {
+	var letters [][]int
+	for _, nm := range names {
+		var seq []int
+		for _, one := range strings.Split(nm, ",") {
+			if one == "" {
 				continue
 			}
 			found := false
 			for i, t := range alphabet {
-				if t.Name == nm {
-					letters = append(letters, []int{i})
+				if t.Name == one {
+					seq = append(seq, i)
 					found = true
 				}
 			}
 			if !found {
-				fatal("chain alphabet names a template that does not exist:", nm)
+				fatal("chain alphabet names a template that does not exist:", one)
 			}
 		}
-		var rec func(cur [][]int)
-		rec = func(cur [][]int) {
-			if len(cur) == nBlocks {
-				jobs = append(jobs, chainJob{p, append([][]int{}, cur...)})
-				return
+		letters = append(letters, seq)
+	}
+	return letters
+}
+
+// enumerateChains: all families of every parent state; forceBlocks > 0 overrides the families' lengths (worker processes).
+func enumerateChains(pres []*prestate, forceBlocks int) []chainJob {
+	var jobs []chainJob
+	for _, p := range pres {
+		seen := map[string]bool{}
+		for _, fam := range chainFamiliesFor(p) {
+			n := fam.n
+			if forceBlocks > 0 {
+				n = forceBlocks
 			}
-			for _, l := range letters {
-				rec(append(cur, l))
+			letters := lettersToSeqs(fam.letters)
+			var rec func(cur [][]int)
+			rec = func(cur [][]int) {
+				if len(cur) == n {
+					if nm := chainName(cur); !seen[nm] {
+						seen[nm] = true
+						jobs = append(jobs, chainJob{p, append([][]int{}, cur...)})
+					}
+					return
+				}
+				for _, l := range letters {
+					rec(append(cur, l))
+				}
 			}
+			rec(nil)
 		}
-		rec(nil)
 	}
 	return jobs
 }
